@@ -159,6 +159,15 @@ func (o *storeHandler) changeHandler(id string, before, after interface{}) {
 		if rid == "" {
 			return
 		}
+	} else if o.def != nil {
+		// Without a value, the default value is served, with or without a
+		// transformer. The client should get events relative to it.
+		if before == nil {
+			before = o.def
+		}
+		if after == nil {
+			after = o.def
+		}
 	}
 
 	r, err := o.s.Resource(rid)
